@@ -38,6 +38,9 @@ def gen_dh(rng, tier, mult):
     for ci in range(n):
         r = rng.fork("d%d" % ci)
         ops = []
+        if r.chance(1, 8):
+            # environment: stale entries in OpenSSL's per-thread error queue, left by unrelated earlier failures
+            ops.append("staleerr %d" % r.range(1, 4))
         for _ in range(r.range(1, 4)):
             k = r.below(100)
             if k < 30:
